@@ -39,6 +39,9 @@ func c08Scenarios() []c08Scenario {
 			[]pt.Action{open(0, "soc"), dput(0, "a", "o"),
 				{Op: "tx", R: 0, T: "k1|", Sub: []pt.Action{{Op: "dput", K: "b", V: "p"}, {Op: "dput", K: "c", V: "a"}}},
 				syn(0), open(1, "subscribe"), syn(1), dput(1, "d", "p"), {Op: "ddel", R: 0, K: "a", T: "k1|"}, syn(1), syn(0), syn(1)}},
+		{"doc-rest-patch", E2Params{Clients: 2, Type: "doc", Tolerant: true},
+			[]pt.Action{open(0, "soc"), dput(0, "a", "o"), syn(0), {Op: "patch", R: 0, T: "k1", V: `{"a":{"x":1},"b":[1,2]}`}, open(1, "subscribe"), syn(1),
+				dput(1, "d", "p"), syn(1), {Op: "patch", R: 0, T: "k2", V: `{"n":[true]}`}, syn(0), {Op: "patch", R: 0, T: "k1", V: `{"b":[2],"d":"q"}`}, syn(1), syn(0)}},
 		{"map-3c", E2Params{Clients: 3, Type: "map", Tolerant: true},
 			[]pt.Action{open(0, "create"), put(0, "x", "p"), syn(0), open(1, "subscribe"), open(2, "soc"), syn(1), syn(2),
 				put(1, "x", "o"), {Op: "rem", R: 2, K: "x", T: "k1|"}, syn(2), syn(1), syn(0), syn(2)}},
@@ -115,7 +118,19 @@ func c08Run(t *testing.T, sc c08Scenario, cs c08Case) (ncmd int, outcome string,
 			}
 		}
 		ncmd = m.sys.DB.NumCommands() - base
-		// no more faults: every client retries until quiescence
+		// no more faults: the REST callers whose patch was answered with an error try again (now it must succeed) ...
+		retry := m.failedPatches
+		m.failedPatches = nil
+		m.p.Tolerant = false
+		for _, a := range retry {
+			if vv := safeApply(m, a); vv != nil {
+				vv.Sig = vv.Sig + ":retried-after-" + tag
+				v = vv
+				return
+			}
+		}
+		m.p.Tolerant = true
+		// ... and every client retries until quiescence
 		for _, o := range []string{"converge", "applied", "issued", "reference", "log"} {
 			m.oracles[o] = true
 		}
